@@ -13,6 +13,7 @@ import (
 	"github.com/dave/dst/decorator/resolver"
 	"github.com/dave/dst/decorator/resolver/gotypes"
 	"github.com/dave/dst/dstutil"
+	"github.com/dave/dst/verifhook"
 	"golang.org/x/tools/go/packages"
 )
 
@@ -125,6 +126,8 @@ func (d *Decorator) DecorateNode(n ast.Node) (dst.Node, error) {
 		panic("Decorator Path should be set when Resolver is set")
 	}
 
+	verifhook.Point("Decorator.DecorateNode.enter")
+	defer verifhook.Point("Decorator.DecorateNode.exit")
 	fd := d.newFileDecorator()
 	if f, ok := n.(*ast.File); ok {
 		fd.file = f
